@@ -26,12 +26,12 @@ WINDOWED = ["SelectHasData", "SelectMomentum", "SetStat", "WeighInvVol", "WeighE
 
 def plan(tier):
     q = tier == "quick"
-    return [dict(unit="w2", n=260 if q else 2500, builds=["py"] if q else ["py", "so"], case_timeout=300, params={"cuts": 3 if q else 6}),
+    return [dict(unit="w2", n=210 if q else 2500, builds=["py"] if q else ["py", "so"], case_timeout=300, params={"cuts": 3 if q else 6}),
             dict(unit="w5", n=120 if q else 2500, builds=["py"] if q else ["py", "so"], case_timeout=300, params={"cuts": 3 if q else 6})]
 
 
 def floors(tier):
-    c = {"cuts_compared": 400, "spy_records_compared": 5000, "frames_compared": 2000, "fi_cuts_compared": 200}
+    c = {"cuts_before_first_value": 60, "cuts_compared": 400, "spy_records_compared": 5000, "frames_compared": 2000, "fi_cuts_compared": 200}
     for a in WINDOWED:
         c["algo_" + a] = 8 if a in ("PTE_Rebalance", "UpdateRisk", "HedgeRisks") else 20
     return {"min_decided": 150, "counters": c, "max_undecided_frac": 0.3}
@@ -169,7 +169,7 @@ def run_case(unit, cs, idx, build, params):
         return run_w5(cs, params)
     ins.install()
     ins.reset()
-    spec = w2.gen(cs, risk=0.15, fills=0.3)
+    spec = w2.gen(cs, risk=0.15, fills=0.3, nan_gaps=0.5)
     sig = w2.signature(spec)
     sample = w2.sample_of(spec)
     ctx0 = ObsCtx()
@@ -189,7 +189,21 @@ def run_case(unit, cs, idx, build, params):
     cuts = [1, n - 2]
     while len(cuts) < int(params.get("cuts", 2)):
         cuts.append(rng.randint(1, n - 2))
-    cuts = sorted(set(cuts))
+    # cut right before a blank cell gets its first value (a late listing, a name that gets its first target / statistic late): the future value
+    # sits in the very next row, where a fill or an off-by-one reaches it
+    trans = set()
+    grids = [np.array(spec["prices"], dtype=float)]
+    for f in spec["extras"].values():
+        if f.get("nan_gaps") and f.get("rows") in (None, list(range(spec["nd"]))):
+            grids.append(np.array(f["values"], dtype=float))
+    for a in grids:
+        isn = np.isnan(a)
+        for i, j in zip(*np.nonzero(isn[:-1] & ~isn[1:])):
+            if 1 <= i + 1 <= n - 2:
+                trans.add(int(i) + 1)
+    extra_cuts = rng.sample(sorted(trans), min(2, len(trans)))
+    common.bump(cnt, "cuts_before_first_value", len(extra_cuts))
+    cuts = sorted(set(cuts + extra_cuts))
     idx0, data0, extras0 = w2.frames_of(spec)
     nt = False
     for k, ci in enumerate(cuts):
